@@ -34,12 +34,17 @@ Read(r, op, id) == /\ Step /\ rd[r].st = "idle"
                                                         ELSE [st |-> "blocked", op |-> op, id |-> id, res |-> {}]]
                    /\ UNCHANGED <<boot, items, cx, partial>>
 Ack(r) == /\ rd[r].st = "done" /\ rd' = [rd EXCEPT ![r] = Idle] /\ UNCHANGED <<boot, items, cx, nops, partial>>
-NewCtx(id) == /\ Step /\ boot /\ Cardinality(cx) < 2
+NewCtx(id) == /\ Step /\ boot /\ Cardinality(cx) < 3
               /\ cx' = cx \cup {[n |-> Cardinality(cx) + 1, id |-> id, cancelled |-> TdLike(items, id), obs |-> TdLike(items, id)]}
               /\ UNCHANGED <<boot, items, rd, partial>>
+(* the parent context of one teardown-bound context is cancelled: only that context ends *)
+CancelParent(n) == /\ Step /\ \E c \in cx : c.n = n /\ ~c.cancelled
+                   /\ cx' = {IF c.n = n THEN [c EXCEPT !.cancelled = TRUE, !.obs = TRUE] ELSE c : c \in cx}
+                   /\ UNCHANGED <<boot, items, rd, partial>>
 Vals == [ver : 1..MaxVer, td : BOOLEAN]
 Next == \/ \E id \in Ids, v \in Vals : CAppend(id, v) \/ PutRes(id, v)
         \/ MarkBoot \/ \E id \in Ids : Remove(id) \/ NewCtx(id)
+        \/ \E n \in 1..3 : CancelParent(n)
         \/ \E r \in Readers, op \in {"get", "list"}, id \in Ids : Read(r, op, id)
         \/ \E r \in Readers : Ack(r)
 Spec == Init /\ [][Next]_vars
